@@ -6,7 +6,7 @@ cd /verif
 export GOFLAGS=-mod=mod GOPROXY=off
 ./gen_gomod.sh
 mkdir -p bin evidence out
-(cd harness && go build -tags verif -o /verif/bin/vcheck ./cmd/vcheck)
+for d in harness/cmd/*/; do n=$(basename "$d"); (cd harness && go build -tags verif -o "/verif/bin/$n" "./cmd/$n"); done
 tmp=$(mktemp -d)
 trap 'rm -rf "$tmp"' EXIT
 cp specs/*.tla "$tmp"/
